@@ -244,6 +244,21 @@ impl<Front: SocketHandler> ConnectionH1<Front> {
         // spin; `try_resume_reading` will re-arm it once the peer drains the
         // buffer (edge-triggered epoll won't re-fire for data already in the
         // kernel socket buffer).
+        // A buffer filled by one read that began with an interim response (100 /
+        // 103): the interim has been written and cleared, what follows it is
+        // still unparsed, and the few bytes the interim freed at the front of
+        // the storage are below kawa's own shift threshold. Nothing references
+        // the storage (no block, nothing queued), so shift it: parking here
+        // would wait for a frontend write that has nothing to write.
+        if kawa.storage.available_space() == 0
+            && self.position.is_client()
+            && kawa.is_initial()
+            && kawa.blocks.is_empty()
+            && kawa.out.is_empty()
+            && kawa.storage.start > 0
+        {
+            kawa.storage.shift();
+        }
         if kawa.storage.available_space() == 0 {
             self.readiness.event.remove(Ready::READABLE);
             self.parked_on_buffer_pressure = true;
